@@ -99,7 +99,35 @@ func bufsEqual(c *wgen.Case, a, b xrt.Buffers) bool {
 	return true
 }
 
-func c13Program(r *explore.Run, p *prog, depth int, tot *c12Totals) {
+// f2Shape returns the sorted set of compound-construct letters of an F2/F2L signature (b block, e if/else,
+// f for, i if, l loop, q else-if chain, s switch, w while), or "-" for a tree of leaves only.
+func f2Shape(sig string) string {
+	p := strings.SplitN(sig, "/", 3)
+	if len(p) < 3 {
+		return "-"
+	}
+	var have [26]bool
+	for _, ch := range p[2] {
+		if ch >= 'a' && ch <= 'z' {
+			have[ch-'a'] = true
+		}
+	}
+	out := ""
+	for i, h := range have {
+		if h {
+			out += string(rune('a' + i))
+		}
+	}
+	if out == "" {
+		return "-"
+	}
+	return out
+}
+
+func c13Program(r *explore.Run, p *prog, depth int, tot *c12Totals) { c13ProgramOnly(r, p, depth, tot, nil) }
+
+// c13ProgramOnly restricts the transitions to the named passes (nil: all twelve).
+func c13ProgramOnly(r *explore.Run, p *prog, depth int, tot *c12Totals, only map[string]bool) {
 	c := p.Case
 	if c == nil {
 		return
@@ -119,6 +147,9 @@ func c13Program(r *explore.Run, p *prog, depth int, tot *c12Totals) {
 	baseFindings := findingSet(irx.Validate(m0, irx.ValidateOpts{SkipNagaValidate: true}))
 	passes := c13Passes()
 	sc := strings.Join(strings.Split(p.Sig, "/")[:2], "/") // family + position / operator kind
+	if strings.HasPrefix(p.Sig, "F2/") || strings.HasPrefix(p.Sig, "F2L/") {
+		sc += "/" + f2Shape(p.Sig) // + the set of compound constructs in the tree
+	}
 	if strings.HasPrefix(p.Sig, "F1/") {
 		sc = "F1/" + strings.Split(p.Sig, "/")[len(strings.Split(p.Sig, "/"))-1] // operand source (buf/let/var/fn/asg)
 	}
@@ -138,6 +169,9 @@ func c13Program(r *explore.Run, p *prog, depth int, tot *c12Totals) {
 		var next []state
 		for _, st := range frontier {
 			for pi, ps := range passes {
+				if only != nil && !only[ps.name] {
+					continue
+				}
 				if st.ssa && !ps.dxilOnly {
 					// the exported ir.* passes are defined on modules without the DXIL-only SSA
 					// expression kinds; they are not applied to states produced by mem2reg
@@ -254,6 +288,16 @@ func runC13() int {
 	sub := &wgen.Family{Name: "F1", Count: (f1.Count + f1stride - 1) / f1stride, At: func(i int) *wgen.Case { return f1.At(i * f1stride) }}
 	fams = append(fams, sub)
 	forEachProgram(r, fams, nil, func(p *prog) { c13Program(r, p, depth, tot) })
+	// wide and shallow: each pass that rewrites function bodies (inliner, sroa, mem2reg, dce, the whole DXIL
+	// pipeline) once (depth 1) on every tree of two reduced alphabets with a larger node budget, with
+	// function-local accumulators: stores to promotable locals under deeper nesting of if/else/return and
+	// of loop/break/continue
+	wide := []*wgen.Family{wgen.F2LMini(4, 1), wgen.F2LMini(4, 2)}
+	if r.Thorough() {
+		wide = []*wgen.Family{wgen.F2LMini(5, 1), wgen.F2LMini(5, 2), wgen.F2L(4, true)}
+	}
+	localPasses := map[string]bool{"InlineAll": true, "sroa": true, "mem2reg": true, "dce": true, "dxil-pipeline": true}
+	forEachProgram(r, wide, nil, func(p *prog) { c13ProgramOnly(r, p, 1, tot, localPasses) })
 	r.Extra("states", tot.states)
 	r.Extra("transitions", tot.transitions)
 	r.Extra("traces_validated_against_impl", tot.traces)
